@@ -816,6 +816,281 @@ func c20Round4(s *source, e *emitter) {
 	}
 }
 
+
+// ---------------------------------------------------------------- round 5
+//
+// AST.Format: the two bounds conditions of the look-ahead behind an import literal, TRANSLATED to Lean functions over
+// Int (next, len(a.Stmts), idx); the decision table of its `switch e.(type)`; the calls of the delegating entry points
+// format.File / format.Source with their forwarded argument lists and what happens to the error of each.
+
+// c20IntExpr translates an integer expression over the identifiers in vars, `len(a.Stmts)` (as "len") and integer
+// literals with + and -.
+func c20IntExpr(s *source, e ast.Expr, vars map[string]bool) (string, bool) {
+	switch x := e.(type) {
+	case *ast.ParenExpr:
+		t, ok := c20IntExpr(s, x.X, vars)
+		return "(" + t + ")", ok
+	case *ast.Ident:
+		if vars[x.Name] {
+			return x.Name, true
+		}
+	case *ast.BasicLit:
+		if x.Kind == token.INT {
+			return "(" + x.Value + " : Int)", true
+		}
+	case *ast.CallExpr:
+		if id, ok := x.Fun.(*ast.Ident); ok && id.Name == "len" && len(x.Args) == 1 && s.src(x.Args[0]) == "a.Stmts" {
+			return "len", true
+		}
+	case *ast.BinaryExpr:
+		if x.Op == token.ADD || x.Op == token.SUB {
+			l, ok1 := c20IntExpr(s, x.X, vars)
+			r, ok2 := c20IntExpr(s, x.Y, vars)
+			return "(" + l + " " + x.Op.String() + " " + r + ")", ok1 && ok2
+		}
+	}
+	return "0", false
+}
+
+// c20IntCond translates a comparison / && / || / ! of integer expressions.
+func c20IntCond(s *source, e ast.Expr, vars map[string]bool) (string, bool) {
+	switch x := e.(type) {
+	case *ast.ParenExpr:
+		t, ok := c20IntCond(s, x.X, vars)
+		return "(" + t + ")", ok
+	case *ast.UnaryExpr:
+		if x.Op == token.NOT {
+			t, ok := c20IntCond(s, x.X, vars)
+			return "(!" + t + ")", ok
+		}
+	case *ast.BinaryExpr:
+		switch x.Op {
+		case token.LAND, token.LOR:
+			l, ok1 := c20IntCond(s, x.X, vars)
+			r, ok2 := c20IntCond(s, x.Y, vars)
+			return "(" + l + " " + x.Op.String() + " " + r + ")", ok1 && ok2
+		case token.GEQ, token.LEQ, token.EQL, token.NEQ, token.LSS, token.GTR:
+			op := map[token.Token]string{token.GEQ: "≥", token.LEQ: "≤", token.EQL: "=", token.NEQ: "≠", token.LSS: "<", token.GTR: ">"}[x.Op]
+			l, ok1 := c20IntExpr(s, x.X, vars)
+			r, ok2 := c20IntExpr(s, x.Y, vars)
+			return "decide (" + l + " " + op + " " + r + ")", ok1 && ok2
+		}
+	}
+	return "false", false
+}
+
+// c20AstFormat: the range loop of AST.Format.
+func c20AstFormat(s *source, e *emitter) {
+	rel := c20Dir + "ast/ast.go"
+	fail := func(msg string) {
+		e.errors = append(e.errors, "AST.Format: "+msg)
+		e.printf("def af_loopGuard (next len idx : Int) : Bool := false\n\ndef af_lookGuard (next len idx : Int) : Bool := false\n\n")
+		e.printf("def af_lookTarget : String := \"MISSING\"\n\ndef af_loopRest : String := \"MISSING\"\n\ndef af_nextInit : String := \"MISSING\"\n\n")
+		e.printf("def af_cases : List (String × String) := []\n\ndef af_prologue : List String := []\n\n")
+	}
+	fd := s.findFunc(rel, "AST.Format")
+	if fd == nil {
+		fail("not found")
+		return
+	}
+	var rng *ast.RangeStmt
+	for _, st := range fd.Body.List {
+		if r, ok := st.(*ast.RangeStmt); ok && s.src(r.X) == "a.Stmts" {
+			rng = r
+		}
+	}
+	if rng == nil || rng.Key == nil || s.src(rng.Key) != "idx" {
+		fail("`for idx, e := range a.Stmts` not found")
+		return
+	}
+	var sw *ast.TypeSwitchStmt
+	var prologue []string
+	for _, st := range rng.Body.List {
+		if t, ok := st.(*ast.TypeSwitchStmt); ok {
+			sw = t
+			continue
+		}
+		if sw != nil {
+			prologue = append(prologue, "AFTER-SWITCH "+c20Exact(s, st))
+			continue
+		}
+		prologue = append(prologue, c20Exact(s, st))
+	}
+	if sw == nil {
+		fail("type switch not found")
+		return
+	}
+	vars := map[string]bool{"next": true, "idx": true}
+	var cases [][2]string
+	loopG, lookG, target, rest, nextInit := "", "", "", "", ""
+	ok := true
+	for _, c := range sw.Body.List {
+		cc := c.(*ast.CaseClause)
+		var names []string
+		for _, t := range cc.List {
+			names = append(names, strings.TrimPrefix(s.src(t), "*"))
+		}
+		if len(names) == 0 {
+			names = []string{"default"}
+		}
+		what := ""
+		nl := 0
+		plain := true
+		for _, st := range cc.Body {
+			if s.src(st) == "fw.NewLine()" {
+				nl++
+			} else {
+				plain = false
+			}
+		}
+		if plain {
+			what = strconv.Itoa(nl)
+		} else {
+			// the look-ahead: next := <init>; for <guard> && a.Stmts[next].Format() == NilIndent { next++ };
+			// if <guard> { _, ok := a.Stmts[next].(*T); if !ok { fw.NewLine() } }
+			what = "look"
+			if len(cc.Body) != 3 {
+				ok = false
+				continue
+			}
+			as, ok1 := cc.Body[0].(*ast.AssignStmt)
+			fr, ok2 := cc.Body[1].(*ast.ForStmt)
+			is, ok3 := cc.Body[2].(*ast.IfStmt)
+			if !ok1 || !ok2 || !ok3 || fr.Init != nil || fr.Post != nil || is.Else != nil || is.Init != nil {
+				ok = false
+				continue
+			}
+			if len(as.Lhs) == 1 && s.src(as.Lhs[0]) == "next" && len(as.Rhs) == 1 {
+				t, okx := c20IntExpr(s, as.Rhs[0], vars)
+				nextInit = t
+				ok = ok && okx
+			} else {
+				ok = false
+			}
+			be, isB := fr.Cond.(*ast.BinaryExpr)
+			if !isB || be.Op != token.LAND {
+				ok = false
+				continue
+			}
+			g, okg := c20IntCond(s, be.X, vars)
+			loopG = g
+			ok = ok && okg
+			rest = c20Exact(s, be.Y) + " { " + c20Exact(s, fr.Body) + " }"
+			g2, okg2 := c20IntCond(s, is.Cond, vars)
+			lookG = g2
+			ok = ok && okg2
+			target = c20Exact(s, is.Body)
+		}
+		for _, n := range names {
+			cases = append(cases, [2]string{n, what})
+		}
+	}
+	if !ok || loopG == "" || lookG == "" {
+		fail("the look-ahead of the ImportLiteralStmt case is outside the translated subset")
+		return
+	}
+	e.printf("/-- AST.Format, look-ahead behind an import literal: the bounds condition of the `for` (left operand of &&), translated -/\n")
+	e.printf("def af_loopGuard (next len idx : Int) : Bool := %s\n\n", loopG)
+	e.printf("/-- AST.Format: the bounds condition of the `if` in front of `a.Stmts[next]`, translated -/\n")
+	e.printf("def af_lookGuard (next len idx : Int) : Bool := %s\n\n", lookG)
+	e.printf("/-- AST.Format: `next := …`, translated -/\ndef af_nextInit (idx : Int) : Int := %s\n\n", nextInit)
+	e.printf("/-- AST.Format: right operand of the `for` condition and the loop body -/\ndef af_loopRest : String := %s\n\n", leanString(rest))
+	e.printf("/-- AST.Format: what is done with a.Stmts[next] -/\ndef af_lookTarget : String := %s\n\n", leanString(target))
+	e.printf("/-- AST.Format: `switch e.(type)`: dynamic type -> number of fw.NewLine() calls, or `look` -/\ndef af_cases : List (String × String) := [")
+	for i, c := range cases {
+		if i > 0 {
+			e.printf(", ")
+		}
+		e.printf("(%s, %s)", leanString(c[0]), leanString(c[1]))
+	}
+	e.printf("]\n\n")
+	e.stringList("af_prologue", "AST.Format: the statements of the loop body around the type switch", prologue)
+}
+
+// c20Calls: the calls of a delegating function in source order, each with its forwarded argument list and with what
+// the function does with the call's error: `return-err` (if err != nil { return err }), `returned` (the call is the
+// operand of the return statement), `ignored`.
+func c20Calls(s *source, e *emitter, rel, goName, lean string, keep func(name string) bool) {
+	fd := s.findFunc(rel, goName)
+	type call struct {
+		name string
+		args []string
+		err  string
+	}
+	var calls []call
+	if fd == nil {
+		e.errors = append(e.errors, "function "+goName+" not found in "+rel)
+	} else {
+		var visitExpr func(n ast.Node, err string)
+		visitExpr = func(n ast.Node, err string) {
+			ast.Inspect(n, func(x ast.Node) bool {
+				c, ok := x.(*ast.CallExpr)
+				if !ok {
+					return true
+				}
+				name := s.src(c.Fun)
+				if !keep(name) {
+					return true
+				}
+				var args []string
+				for _, a := range c.Args {
+					args = append(args, c20Exact(s, a))
+				}
+				calls = append(calls, call{name, args, err})
+				return true
+			})
+		}
+		retErr := func(st ast.Stmt) bool {
+			is, ok := st.(*ast.IfStmt)
+			return ok && s.src(is.Cond) == "err != nil" && len(is.Body.List) == 1 && s.src(is.Body.List[0]) == "return err"
+		}
+		list := fd.Body.List
+		for i, st := range list {
+			switch x := st.(type) {
+			case *ast.IfStmt:
+				if x.Init != nil && s.src(x.Cond) == "err != nil" && len(x.Body.List) == 1 && s.src(x.Body.List[0]) == "return err" {
+					visitExpr(x.Init, "return-err")
+					continue
+				}
+				if retErr(st) {
+					continue
+				}
+				visitExpr(st, "ignored")
+			case *ast.ReturnStmt:
+				visitExpr(st, "returned")
+			default:
+				err := "ignored"
+				if as, ok := st.(*ast.AssignStmt); ok && len(as.Lhs) > 0 && s.src(as.Lhs[len(as.Lhs)-1]) == "err" && i+1 < len(list) && retErr(list[i+1]) {
+					err = "return-err"
+				}
+				visitExpr(st, err)
+			}
+		}
+	}
+	e.printf("/-- calls of `%s` in %s: (callee, forwarded arguments, what happens to its error) -/\ndef %s : List (String × List String × String) := [", goName, rel, lean)
+	for i, c := range calls {
+		if i > 0 {
+			e.printf(",")
+		}
+		e.printf("\n  (%s, [", leanString(c.name))
+		for j, a := range c.args {
+			if j > 0 {
+				e.printf(", ")
+			}
+			e.printf("%s", leanString(a))
+		}
+		e.printf("], %s)", leanString(c.err))
+	}
+	e.printf("]\n\n")
+}
+
+func c20Round5(s *source, e *emitter) {
+	c20AstFormat(s, e)
+	all := func(string) bool { return true }
+	c20Calls(s, e, c20Dir+"format/format.go", "File", "calls_File", all)
+	c20Calls(s, e, c20Dir+"format/format.go", "Source", "calls_Source", all)
+}
+
 // c20FullExact is c20Full with literal-preserving source text.
 func (e *emitter) c20ExactDef(s *source, rel, goName, lean string) {
 	fd := s.findFunc(rel, goName)
@@ -931,5 +1206,6 @@ func init() {
 			return n == "New" || n == "Parse" || n == "CheckErrors" || n == "Format"
 		})
 		c20Round4(s, e)
+		c20Round5(s, e)
 	})
 }
